@@ -53,10 +53,10 @@ def commit_history(rng, n, heavy_delete=False, lazy=True):
 class C06(Prop):
     ID = "C06"
     MODULE = "AwProofs.Props.C06"
-    THEOREMS = ["AwProofs.C06.bucket_ops_durable", "AwProofs.C06.bucket_ops_durable_delete", "AwProofs.C06.bucket_ops_durable_update_missing", "AwProofs.C06.cur_is_last_of_history", "AwProofs.C06.durable_is_past_state", "AwProofs.C06.durable_is_prefix_minus_pending", "AwProofs.C06.eager_always_durable", "AwProofs.C06.eager_every_op_durable", "AwProofs.C06.insertMany_can_split", "AwProofs.C06.pending_bounded", "AwProofs.C06.pending_bounded_inside_insertMany", "AwProofs.C06.pending_consistent", "AwProofs.C06.single_op_atomic"]
+    THEOREMS = ["AwProofs.C06.bucket_ops_durable", "AwProofs.C06.bucket_ops_durable_delete", "AwProofs.C06.bucket_ops_durable_update_missing", "AwProofs.C06.cur_is_last_of_history", "AwProofs.C06.durable_is_past_state", "AwProofs.C06.durable_is_prefix_minus_pending", "AwProofs.C06.eager_always_durable", "AwProofs.C06.eager_every_op_durable", "AwProofs.C06.every_op_atomic", "AwProofs.C06.insertMany_inside_not_durable", "AwProofs.C06.insertMany_no_longer_splits", "AwProofs.C06.pending_bounded", "AwProofs.C06.pending_bounded_inside_insertMany", "AwProofs.C06.pending_consistent", "AwProofs.C06.single_op_atomic"]
     MODEL_NEEDS_IMPL = True
     WORKERS = 12
-    LEVEL_TEXT = 'Lean 4 invariants of the commit machine over the sqlite table model, for all histories: durable_is_past_state / durable_is_prefix_minus_pending (the reopened database is the state after a prefix of the elementary writes), bucket_ops_durable, single_op_atomic, pending_bounded (<= 50, deletions counted), eager_every_op_durable, insertMany_can_split (witness that bulk inserts may be split); model compared with the real store through a second connection after every operation and by SIGKILL at every traced SQL statement (sqlite and peewee)'
+    LEVEL_TEXT = 'Lean 4 invariants of the commit machine over the sqlite table model, for all histories: durable_is_past_state / durable_is_prefix_minus_pending (the reopened database is the state after a prefix of the elementary writes), bucket_ops_durable, single_op_atomic, pending_bounded (<= 50, deletions counted), eager_every_op_durable, every_op_atomic / insertMany_inside_not_durable (the repaired insert_many takes one commit decision after all its statements: no operation is split, a crash inside it shows none of it); model compared with the real store through a second connection after every operation and by SIGKILL at every traced SQL statement (sqlite and peewee)'
     LEVEL_NOTE = 'trusts: Lean kernel + 3 standard axioms; SQLite atomic commit / WAL recovery and Python sqlite3 implicit transactions (exercised by the real kill runs); peewee autocommit (no model: every completed operation durable is checked on the real store)'
     TECHNIQUE = "Lean 4 invariant proof over a commit-machine model + differential correspondence (second-connection view, SIGKILL at every SQL statement)"
     RULE = (
@@ -240,9 +240,9 @@ class C06(Prop):
                 cands = [i for i in range(match, j + 1) if owns[i] == sec]
                 where = f"op {j - 1} {json.dumps(op, ensure_ascii=False)[:120]}"
                 if not cands:
-                    # a bulk insert with upserts commits conditionally after each upsert, so the committed state
-                    # may lie inside it (the property only forbids splitting single-event and bucket operations);
-                    # such a state is checked against the model by the correspondence
+                    # the property only forbids splitting single-event and bucket operations: a committed state inside
+                    # a bulk insert is not a violation by itself (the repaired insert_many never produces one - theorem
+                    # every_op_atomic - so the correspondence with the model reports it as a disagreement)
                     split = [q for q in range(match, j) if out["resolved"][q][0] == "bulk"
                              and any(e[0] is not None for e in out["resolved"][q][2])]
                     if not split:
@@ -272,8 +272,8 @@ class C06(Prop):
             op = out["resolved"][j] if j >= 0 else None
             if not cands:
                 if any(o[0] == "bulk" and any(e[0] is not None for e in o[2]) for o in out["resolved"][: max(j, 0) + 1]):
-                    # the last commit may have happened inside an earlier (or this) bulk insert with upserts, which
-                    # commits conditionally after each upsert: such a state is compared exactly with the model
+                    # a commit inside an earlier (or this) bulk insert is not forbidden by the property; the model
+                    # (every_op_atomic) has none, so such a state shows up as a disagreement of the correspondence
                     return None
                 return f"crash inside op {j}: reopened database is not the state after any prefix of the operations"
             i = cands[-1]
